@@ -559,6 +559,16 @@ func c10Parked(c *fw.Ctx, id string, scenario string) {
 				w.openGate()
 				return
 			}
+			// a deref issued now (the body is still blocked) must end with its own caller's deadline
+			if bodyKind == "gate" {
+				t1 := time.Now()
+				dd := w.do(2, "deref", 30*time.Millisecond)
+				if el := time.Since(t1); el > 3*time.Second || !dd.TimedOut {
+					viol("R7:deref-ignores-caller-context", fmt.Sprintf("a deref with a 30 ms deadline on a cancelled future whose body is still blocked took %v and returned %s", el, dd))
+					w.openGate()
+					return
+				}
+			}
 			// the body's context must be cancelled
 			if bodyKind == "gate" {
 				ok := false
